@@ -668,6 +668,37 @@ def rule_this(ctx, rep: Report, rid="S6"):
                             f"({type(p).__name__}): identifiers that merely contain it could be rewritten", where)
     if n < 4:
         raise AnalysisError(f"{rep.prop}/{rid}: {n} uses of the reserved name This, 4 expected")
+    # the substring test `'This' in <spelling>` only *selects* the branch for `This::Nested` spellings; it is harmless exactly as long
+    # as the spellings that are template parameters have been dealt with before it: a parameter called `ThisType` or `NotThis`
+    # contains the word as well
+    fn_ = prog.func(f"{TI}/helpers.py", "instantiate_type")
+    # the decisions of the function in the order in which they are taken: the tests of its top-level if / elif chains and guard
+    # clauses (`if <test>: ... return`), top to bottom
+    chain_top = []
+    for st in fn_.body:
+        cur = st if isinstance(st, ast.If) else None
+        while cur is not None:
+            chain_top.append(cur.test)
+            cur = cur.orelse[0] if len(cur.orelse) == 1 and isinstance(cur.orelse[0], ast.If) else None
+    if not any("This" in unparse(t) for t in chain_top):
+        chain_top = None
+    if chain_top is not None:
+        def kind(t) -> str:
+            txt = unparse(inline_locals(fn_, t)).replace(" ", "")
+            if isinstance(t, ast.Compare) and len(t.ops) == 1 and isinstance(t.ops[0], ast.In) and isinstance(t.left, ast.Constant) and t.left.value == "This" \
+                    and not (unparse(t.comparators[0]).endswith(".namespaces") or ".split(" in unparse(t.comparators[0])):
+                return "substring"
+            if "template_typenames" in txt or "is_scoped_template" in txt or "scoped_template" in unparse(t):
+                return "parameter"
+            return "other"
+        kinds = [kind(t) for t in chain_top]
+        sub_i = [k for k, x in enumerate(kinds) if x == "substring"]
+        par_i = [k for k, x in enumerate(kinds) if x == "parameter"]
+        rep.add(rid, "this:instantiate_type:the substring test for `This` is reached only by spellings that are no template parameter",
+                not sub_i or (bool(par_i) and max(par_i) < min(sub_i)),
+                f"order of the tests {kinds}: the substring test stands in front of a template-parameter test, so a parameter whose identifier contains "
+                f"`This` (`ThisType`, `NotThis`) takes the `This` branch and is returned unsubstituted - the output depends on how the parameter is called",
+                f"{TI}/helpers.py:{chain_top[0].lineno}")
     # replacement value: cpp_typename (parameter) or derived from instantiated_class
     fn = prog.func(f"{TI}/helpers.py", "instantiate_type")
     mi = prog.module(f"{TI}/helpers.py")
@@ -1739,3 +1770,62 @@ def rule_flat_name_of_nested_arguments(ctx, rep: Report, rid="N10"):
             f"for double, vector<Pose2>, pair<size_t, vector<Pose2>>, pair<size_t, vector<Pose3>>, vector<vector<double>>, map<Key, pair<A, vector<B>>> the "
             f"identifier is {got}, it has to be {want}: arguments that differ only below the first level get the same name (two classes, one Python name)",
             f"{ci.mod.rel}:{fn.lineno}")
+
+
+def rule_instantiation_depends_on_itself_only(ctx, rep: Report, rid="P9"):
+    """What is built for one member of the Cartesian product (its name, its arguments) is a function of that member and of
+    the template alone: inside a loop / comprehension over the combinations, no argument of the instantiation's constructor
+    is computed from the *collection* of combinations (a flag such as "two of the names clash", a count, a position).
+    Otherwise adding, removing or re-ordering other instantiations changes this one."""
+    prog = ctx.prog
+    nmi = prog.module(f"{TI}/namespace.py")
+    n = 0
+    inst_classes = {c.name for mi in prog.modules.values() if mi.rel.startswith(TI) for c in mi.classes.values() if c.name.startswith("Instantiated")}
+    for mi in sorted(prog.modules.values(), key=lambda m: m.rel):
+        if not mi.rel.startswith(TI):
+            continue
+        for fn in [f for f in ast.walk(mi.tree) if isinstance(f, ast.FunctionDef)]:
+            la = local_assignments(fn)
+
+            def is_combinations(e) -> bool:
+                if isinstance(e, ast.Call) and (dotted(e.func) or "").endswith("product"):
+                    return True
+                if isinstance(e, (ast.ListComp, ast.GeneratorExp)):
+                    return any(is_combinations(g.iter) for g in e.generators)
+                if isinstance(e, ast.Call) and isinstance(e.func, ast.Name) and e.func.id in ("list", "tuple") and e.args:
+                    return is_combinations(e.args[0])
+                if isinstance(e, ast.Name):
+                    vs = [st.value for st in la.get(e.id, []) if isinstance(st, ast.Assign)]
+                    return bool(vs) and all(is_combinations(v) for v in vs)
+                return False
+            for loop in [l for l in ast.walk(fn) if isinstance(l, (ast.For, ast.comprehension)) and is_combinations(l.iter)]:
+                coll = {loop.iter.id} if isinstance(loop.iter, ast.Name) else set()
+                body = loop if isinstance(loop, ast.For) else parent(loop)
+                ctor_calls = [c for c in ast.walk(body) if isinstance(c, ast.Call) and (dotted(c.func) or "").split(".")[-1] in inst_classes]
+                if not ctor_calls:
+                    continue
+                n += 1
+                # locals that are computed from the collection as a whole
+                tainted: Dict[str, str] = {}
+                changed = True
+                while changed:
+                    changed = False
+                    for nm, sts in la.items():
+                        if nm in tainted or nm in coll:
+                            continue
+                        for st in sts:
+                            if isinstance(st, ast.Assign) and any(isinstance(x, ast.Name) and (x.id in coll or x.id in tainted) for x in ast.walk(st.value)) \
+                                    and not any(st is y for y in ast.walk(body)):
+                                tainted[nm] = unparse(st.value)[:50]
+                                changed = True
+                bad = []
+                for c in ctor_calls:
+                    for x in ast.walk(c):
+                        if isinstance(x, ast.Name) and isinstance(x.ctx, ast.Load) and (x.id in tainted or x.id in coll):
+                            bad.append(f"{x.id} = {tainted.get(x.id, 'the list of combinations')}")
+                rep.add(rid, f"per-instantiation:{fn.name}:{unparse(ctor_calls[0])[:40]}:built from its own combination only", not bad,
+                        f"the constructor call reads {sorted(set(bad))[:2]}, computed from all combinations: the name / content of one instantiation changes "
+                        f"when another one is added, removed or moved", f"{mi.rel}:{ctor_calls[0].lineno}")
+    rep.units["instantiation_loops_checked"] = n
+    if len(inst_classes) < 4:
+        raise AnalysisError(f"{rep.prop}/{rid}: only {len(inst_classes)} Instantiated* classes found")
